@@ -393,6 +393,25 @@ def search(ctx):
             s2 = model.scatterer_from_parameters([vals[nm] for nm in names])
             if repr(s1) != repr(s2):
                 ctx.violation("C11:dict-vs-list", "name-keyed and list-ordered values give different scatterers", info)
+            # call histories: the SAME list / array object handed in again after being edited in place (an optimiser's working
+            # vector) must give the scatterer of its current values; two builds never share mutable state with each other
+            for cont in (list, np.array):
+                work = cont([vals[nm] for nm in names])
+                sa = model.scatterer_from_parameters(work)
+                for j in range(len(names)):
+                    work[j] = work[j] + 0.003 * (j + 1)
+                sb = model.scatterer_from_parameters(work)
+                fresh = model.scatterer_from_parameters({nm: vals[nm] + 0.003 * (j + 1) for j, nm in enumerate(names)})
+                ctx.tried("in-place-values", (kind, cont.__name__, len(names), i))
+                pa, pb = sb.parameters, fresh.parameters
+                same = set(pa) == set(pb) and all(np.array_equal(np.asarray(pa[k_], dtype=complex), np.asarray(pb[k_], dtype=complex)) for k_ in pa)
+                if len(names) and not same:
+                    ctx.violation("C11:values-edited-in-place", "scatterer_from_parameters called again with the same %s object after its entries were edited in place returns the scatterer of the OLD values" % cont.__name__,
+                                  dict(container=cont.__name__, **info))
+                    break
+                if sa is sb or (walk_ids(vars(sa), set()) & walk_ids(vars(sb), set())):
+                    ctx.violation("C11:shared-state:two-builds", "two scatterers built by consecutive calls share mutable state (an edit of one shows up in the other)", dict(container=cont.__name__, **info))
+                    break
 
             def expect(o):
                 if isinstance(o, Prior):
